@@ -69,6 +69,16 @@ def cfg_list(tier, seed):
     c.append(dict(name="type2-n3-queue-of-1", streams=[S(0o1, X, 2, 3)], strays=False, maxq=1, kinds=AG))
     c.append(dict(name="type1-n2-again", streams=[S(0o1, X, 1, 2)], strays=False, kinds=ALL_KINDS + ("again",)))
     c.append(dict(name="type2-n3-again", streams=[S(0o1, X, 2, 3)], strays=False, kinds=ALL_KINDS + ("again",)))
+    # one sender re-uses its header (same frame id, same type) for two different messages in a row: the second stream starts
+    # only when the first has ended (a sender transmits one message at a time), whatever was lost of the first.  The FIRST
+    # fragment of the second message is never lost here: without it the second message's LAST is, on the wire, exactly the LAST
+    # the first message was waiting for (same origin, id and type, no counter in a LAST fragment) and no receiver can tell
+    # the splice from a message - my first version allowed that loss and reported FIRST(a) + LAST(b) on the unchanged tree,
+    # a false alarm of the new configuration, corrected before it was registered
+    c.append(dict(name="1-sender-same-id-in-a-row", streams=[S(0o1, X, 65, 3), dict(S(0o1, X, 65, 3), after=0)], strays=False,
+                  kinds=("next", "skip", "twice")))
+    c.append(dict(name="1-sender-same-id-in-a-row-n2-n4", streams=[S(0o1, X, 65, 2), dict(S(0o1, X, 65, 4), after=0)], strays=False,
+                  kinds=("next", "skip", "twice")))
     if q:
         # the largest message of the quantifier (7 fragments, 149 bytes - more than the 144 a node's own sender produces)
         c.append(dict(name="single-n7", streams=[S(0o1, X, 65, 7)], strays=False, kinds=("next", "skip", "twice")))
@@ -135,10 +145,13 @@ class Cfg:
         ev = []
         for k in range(self.n_reg):
             todo = hs.todo[k]
+            after = self.d["streams"][k].get("after")
+            if after is not None and hs.todo[after]:
+                continue  # this stream follows another one of the same sender
             n = len(self.streams[k]["frames"])
             kinds = self.d.get("kinds") or ALL_KINDS
             if todo:
-                ev += [(x, k) for x in ("next", "skip", "twice") if x in kinds]
+                ev += [(x, k) for x in ("next", "skip", "twice") if x in kinds and not (x == "skip" and after is not None and len(todo) == n)]
                 if len(todo) >= 2 and not hs.swapped[k] and "swap" in kinds:
                     ev.append(("swap", k))
             if not hs.rewound[k] and todo != tuple(range(n)) and "rewind" in kinds:
